@@ -57,6 +57,13 @@ Proof. vm_compute. repeat split; reflexivity. Qed.
 Lemma ob_socks_port : socks5_default_port = b "1080".
 Proof. vm_compute. reflexivity. Qed.
 
+(* pac/pac.go: FindProxyForURL uses its receiver only to call the script, so its answer is a function of the
+   query (the model's PAC oracle is a function of the request) *)
+Lemma ob_pac_resolver_stateless :
+  forallb (fun f => mem f [b "fn"; b "vm"]) pac_find_proxy_receiver_fields = true /\
+  pac_find_proxy_writes_receiver = false.
+Proof. vm_compute. split; reflexivity. Qed.
+
 (* net/http of the toolchain that builds the harness; config.go *)
 Lemma ob_transport_socks : transport_socks_schemes = [b "socks5"; b "socks5h"].
 Proof. vm_compute. reflexivity. Qed.
